@@ -80,6 +80,8 @@ def gen_script(r, nassert=None, flavour=None):
     if r.random() < 0.2:
         lines.append('(exit)')
     sep = r.choice(['\n', '\n', ' ', '\r\n'])
+    if sep == ' ':
+        lines = [x for x in lines if not x.startswith(';')]
     return sep.join(lines) + '\n'
 
 
